@@ -24,6 +24,8 @@ func setupLogging() {
 			if r.Lvl > log15.LvlError && !(r.Lvl <= log15.LvlInfo && (strings.HasPrefix(r.Msg, "Invalid transaction") || strings.HasPrefix(r.Msg, "VerifyTxBeforeApply") || strings.HasPrefix(r.Msg, "Term is not stable"))) {
 				return nil
 			}
+			simrt.RaceOff()
+			defer simrt.RaceOn()
 			node := simrt.CurrentNode()
 			var b strings.Builder
 			b.WriteString(r.Msg)
